@@ -93,3 +93,21 @@ func init() {
 		return tuple{len(b), iface{}}
 	}
 }
+
+func init() {
+	// context.WithValue checks key comparability through reflectlite (unsafe); build the valueCtx
+	// directly.  Value lookups then run the real (*valueCtx).Value / context.value code.
+	externals["context.WithValue"] = func(fr *frame, a []value) value {
+		parent, ok := a[0].(iface)
+		if !ok || parent.t == nil {
+			panic(targetPanic{iface{fr.i.runtimeErrorString, "cannot create context from nil parent"}})
+		}
+		if k, ok := a[1].(iface); !ok || k.t == nil {
+			panic(targetPanic{iface{fr.i.runtimeErrorString, "nil key"}})
+		}
+		pkg := fr.i.prog.ImportedPackage("context")
+		vt := pkg.Type("valueCtx").Object().Type()
+		var cell value = structure{parent, a[1], a[2]}
+		return iface{types.NewPointer(vt), &cell}
+	}
+}
